@@ -70,7 +70,7 @@ class EM:
             if e.target is None:
                 continue
             rt = e.target.locals[0]["ty"]
-            if "RemainMarginResponse" in rt:
+            if "RemainMarginResponse" in rt and any("Deps" in e.target.locals[i + 1]["ty"] for i in range(e.target.arg_count)):
                 out.append(e)
         return out
 
